@@ -30,7 +30,7 @@ func faRead(data []byte) (items []faRec, gotErr bool, panicked bool) {
 	items = []faRec{}
 	var kept []*fasta.Fasta // records are projected after the iteration: a delivered record must stay what it was
 	panicked, _ = catch(func() {
-		seq := fasta.Reader(bytes.NewReader(data))
+		seq := fasta.Reader(deliver(data))
 		if faPairedWith != nil { // consumed in lockstep with a reader over another text
 			next, stop := iter.Pull2(fasta.Reader(bytes.NewReader(faPairedWith)))
 			defer stop()
@@ -52,11 +52,25 @@ func faRead(data []byte) (items []faRec, gotErr bool, panicked bool) {
 			kept = append(kept, f)
 		}
 	})
+	if faGrow { // the consumer appends to the fields of the records it holds
+		p, _ := catch(func() {
+			for _, f := range kept {
+				n1, n2 := len(f.Name), len(f.Sequence)
+				grown(f.Name)
+				grown(f.Sequence)
+				f.Name, f.Sequence = f.Name[:n1], f.Sequence[:n2]
+			}
+		})
+		panicked = panicked || p
+	}
 	for _, f := range kept {
 		items = append(items, faProject(f))
 	}
 	return
 }
+
+// faGrow: set per session
+var faGrow bool
 
 // ---------------------------------------------------------------- leg R
 
@@ -369,6 +383,7 @@ func fastaDrive(args []string) error {
 			ev.Items, ev.Err, ev.Panic = faRead(data)
 			tw.emit(ev)
 		}
+		readDelivery, faGrow = []int{0, 0, 1, 0, 2, 3}[sid%6], sid%3 == 1
 		faPairedWith = nil
 		if sid%5 == 3 {
 			faPairedWith = []byte(">other\nACGT\nAC\n>o2\n\n>o3\nTTTT\n")
